@@ -31,12 +31,15 @@ def copy_like(cls, fn):
     return None
 
 
-def _exempt(cls, field, cov):
+def _exempt(cls, field, cov, kind):
     e = TABLE['e1_field_exempt'].get('%s::%s' % (cls, field))
     if not e:
         return False
     if e[0] == 'rebuilt':
         return field in cov['this']
+    if e[0] == 'cache':
+        # a constructor starts from the member's default (empty) state; an assignment must drop the old cache
+        return kind.endswith('ctor') or kind.endswith('ctor+') or field in cov['thisw']
     return True
 
 
@@ -64,7 +67,7 @@ def run_e1(chk, F):
                 name = f['n']
                 if name in cov['src']:
                     ok, why = True, 'read from the source object'
-                elif _exempt(c['name'], name, cov):
+                elif _exempt(c['name'], name, cov, kind):
                     ok, why = True, 'exempt: %s' % TABLE['e1_field_exempt']['%s::%s' % (c['name'], name)][1]
                 else:
                     ok, why = False, ('field %s of %s is never taken from the source object in %s (followed: %s)'
